@@ -23,7 +23,7 @@ CLASSES = ('nonrec', 'nonrec', 'linear', 'nonlinear')
 
 
 def plan(tier, seed):
-    return dict(n=300 if tier == 'quick' else 36000, budget_s=80 if tier == 'quick' else 840, case_timeout=200)
+    return dict(n=600 if tier == 'quick' else 36000, budget_s=80 if tier == 'quick' else 840, case_timeout=200)
 
 
 def gen(tier, seed, index):
